@@ -249,41 +249,128 @@ def observe(desc: dict) -> dict:
 # ------------------------------------------------------------------------------------------------------------------
 # judging
 # ------------------------------------------------------------------------------------------------------------------
-def judge(ctx: Ctx, schemas: list, ops: list, obs: list, name: str = "obs.json", timeout: int = 1800):
-    """TLC judges every observation; returns (disagreements {index: (rule, detail)}, undecided indexes, TLCResult)."""
-    f = ctx.path(name)
-    tlc.write_json(f, {"schemas": schemas or [{"defs": {"nodefs": {"sk": "opaque"}}, "schema": {"sk": "opaque"}, "dia": "d4"}],
-                       "ops": ops or [{"params": [], "bodies": [], "cfg": {"allow_x00": True, "codec": "utf-8", "security": False},
-                                       "defs": {"nodefs": {"sk": "opaque"}}, "dia": "d4"}],
-                       "obs": obs})
-    res = tlc.require_ok(tlc.run_tlc("GenDataJudge", "GenDataJudge.cfg", env={"OBS_FILE": f}, timeout=timeout, heap="12g"), "judge")
+JUDGE_STATES_OVERHEAD = 65  # root + NB block states of GenDataJudge.tla
+
+
+def _judge_chunk(args):
+    f, n, timeout = args
+    dis, und = {}, set()
+
+    def cb(tag, d):
+        if tag == "DISAGREE":
+            dis[d["i"]] = (d["rule"], d["detail"])
+        elif tag == "UNDECIDED":
+            und.add(d["i"])
+
+    res = tlc.require_ok(tlc.run_tlc("GenDataJudge", "GenDataJudge.cfg", env={"OBS_FILE": f, "JAVA_TOOL_OPTIONS": "-XX:ParallelGCThreads=2"}, timeout=timeout, heap="10g", workers=1,
+                                     on_json=cb, want_prints=False), "judge")
     if res.violated:
         raise tlc.TLCFailure("judge: unexpected invariant violation %s\n%s" % (res.violated, "\n".join(res.counterexample[:30])))
-    if res.distinct != len(obs) + 65:
-        raise tlc.TLCFailure("judge visited %d states, expected %d - machinery inconsistency" % (res.distinct, len(obs) + 65))
-    dis, und = {}, set()
-    for p in res.prints:
-        if isinstance(p, list) and p and p[0] == "DISAGREE":
-            dis[p[1]] = (p[2], p[3])
-        elif isinstance(p, list) and p and p[0] == "UNDECIDED":
-            und.add(p[1])
-    if any(not 1 <= i <= len(obs) for i in list(dis) + list(und)):
+    if res.distinct != n + JUDGE_STATES_OVERHEAD:
+        raise tlc.TLCFailure("judge visited %d states, expected %d - machinery inconsistency" % (res.distinct, n + JUDGE_STATES_OVERHEAD))
+    if any(not 1 <= i <= n for i in list(dis) + list(und)):
         raise tlc.TLCFailure("judge reported an observation index out of range")
     return dis, und, res
 
 
+def judge(ctx: Ctx, schemas: list, ops: list, obs: list, name: str = "obs.json", timeout: int = 1800):
+    """TLC judges every observation (several single-worker TLC processes side by side: measured faster than one 16-worker run).
+
+    Returns (disagreements {index: (rule, detail)}, undecided indexes, TLCResult-like summary)."""
+    from concurrent.futures import ThreadPoolExecutor
+
+    schemas = schemas or [{"defs": {"nodefs": {"sk": "opaque"}}, "schema": {"sk": "opaque"}, "dia": "d4"}]
+    ops = ops or [{"params": [], "bodies": [], "cfg": {"allow_x00": True, "codec": "utf-8", "security": False},
+                   "defs": {"nodefs": {"sk": "opaque"}}, "dia": "d4"}]
+    k = max(1, min(4, len(obs) // 5000))
+    size = (len(obs) + k - 1) // k if obs else 0
+    jobs, offsets = [], []
+    for j in range(k):
+        part = obs[j * size:(j + 1) * size] if obs else []
+        f = ctx.path("%s.%d" % (name, j))
+        tlc.write_json(f, {"schemas": schemas, "ops": ops, "obs": part})
+        jobs.append((f, len(part), timeout))
+        offsets.append(j * size)
+    t0 = time.time()
+    with ThreadPoolExecutor(max_workers=k) as ex:
+        parts = list(ex.map(_judge_chunk, jobs))
+    dis, und = {}, set()
+    distinct = generated = 0
+    for off, (d, u, res) in zip(offsets, parts):
+        dis.update({i + off: v for i, v in d.items()})
+        und.update(i + off for i in u)
+        distinct += res.distinct - JUDGE_STATES_OVERHEAD
+        generated += res.generated
+    if distinct != len(obs):
+        raise tlc.TLCFailure("judge visited %d observations, expected %d - machinery inconsistency" % (distinct, len(obs)))
+    summary = tlc.TLCResult(ok=True, generated=generated, distinct=distinct, wall_s=time.time() - t0)
+    return dis, und, summary
+
+
 def _detail_set(detail: Any) -> list:
-    return sorted(detail.get("$set", []), key=str) if isinstance(detail, dict) else []
+    return sorted(detail, key=str) if isinstance(detail, list) else []
 
 
-def value_signature(rule: str, description: str, detail: Any) -> str:
-    kws = ",".join(str(k) for k in _detail_set(detail))
-    return "C03:value:%s:%s:violates={%s}" % (rule, norm_description(description), kws)
+_PRIORITY = ["no-witness", "exclusive-bool", "zero-bound", "oneOf", "anyOf", "nullable", "type-array", "allOf", "not", "format",
+             "pattern+length", "zero-length", "minProperties", "multipleOf", "readOnly", "ref"]
 
 
-def case_signature(rule: str, description: str, detail: Any) -> str:
-    feats = ",".join("%s=%s/%s" % tuple(t) for t in _detail_set(detail) if t[1] != "T" or t[2] == "negative")
-    return "C03:case:%s:%s:{%s}" % (rule, norm_description(description), feats)
+def features(desc: dict) -> set:
+    """Schema-shape features of a descriptor that finding signatures are built from (DESIGN Appendix E)."""
+    out: set = set()
+    d = desc["dialect"]
+
+    def walk(e: Any) -> None:
+        if isinstance(e, list):
+            for x in e:
+                walk(x)
+            return
+        if not isinstance(e, dict):
+            return
+        if e.get("sk") == "schema":
+            if e.get("exclMin") or e.get("exclMax"):
+                out.add("exclusive-bool" if d != "3.1" else "exclusive-num")
+            if e.get("minimum") == 0 or e.get("maximum") == 0:
+                out.add("zero-bound")
+            if e.get("maxLength") == 0 or e.get("maxItems") == 0:
+                out.add("zero-length")
+            for k in ("oneOf", "anyOf", "allOf", "not", "format", "minProperties", "multipleOf", "readOnly", "ref"):
+                if k in e:
+                    out.add(k)
+            if e.get("nullable"):
+                out.add("nullable" if d != "3.1" else "type-array")
+            if "pattern" in e and ("minLength" in e or "maxLength" in e):
+                out.add("pattern+length")
+        for k, v in e.items():
+            if k not in ("enum", "const", "pattern"):
+                walk(v)
+
+    walk([desc.get("schema"), desc.get("params"), desc.get("bodies"), desc.get("defs")])
+    return out
+
+
+def primary(feats: set) -> str:
+    for f in _PRIORITY:
+        if f in feats:
+            return f
+    return "plain"
+
+
+def value_signature(rule: str, description: str, detail: Any, desc: dict) -> str:
+    feats = features(desc) | ({"no-witness"} if "no-witness" in _detail_set(detail) else set())
+    steps = parse_description(description)
+    claim = steps[-1]["kw"] if rule == "description-mismatch" and steps and steps[-1]["k"] == "kw" else ""
+    return "C03:value:%s:%s%s" % (rule, claim + ":" if claim else "", primary(feats))
+
+
+def case_signature(rule: str, description: str, detail: Any, desc: dict) -> str:
+    parts = [t for t in _detail_set(detail) if isinstance(t, list) and len(t) == 3]
+    if rule == "case-positive-something-invalid" and any(t[1] == "F" and t[2] == "negative" for t in parts):
+        return "C03:case:case-label-lags-part-label:" + "+".join(sorted(t[0] for t in parts if t[1] == "F" and t[2] == "negative"))
+    where = "+".join(sorted(t[0] for t in parts if (t[1] == "F" and t[2] == "positive") or (t[1] == "T" and t[2] == "negative"))) or "-"
+    kind = "method" if description.startswith("Unspecified HTTP method") else "missing" if description.startswith("Missing `") else \
+        "duplicate" if description.startswith("Duplicate `") else "value"
+    return "C03:case:%s:%s:%s:%s" % (rule, kind, where, primary(features(desc)))
 
 
 def _short(desc: dict) -> str:
@@ -359,10 +446,10 @@ def run(ctx: Ctx) -> Outcome:
         di, rec = back[i - 1]
         o = obs[i - 1]
         if o["kind"] == "value":
-            sig = value_signature(rule, rec["description"], detail)
+            sig = value_signature(rule, rec["description"], detail, descs[di])
             summary = "%s: value %r labelled %s (%s) for %s" % (rule, _decode(o["value"]), o["mode"], rec["description"], _short(descs[di]))
         else:
-            sig = case_signature(rule, rec["description"], detail)
+            sig = case_signature(rule, rec["description"], detail, descs[di])
             c = o["c"]
             summary = "%s: case labelled %s, parts %s, verdicts %s (%s; modes %s) for %s" % (
                 rule, c["labels"]["case"], {k: v for k, v in c["labels"].items() if k != "case" and v != "none"},
@@ -427,7 +514,7 @@ def replay(ctx: Ctx, data: dict) -> Outcome:
     for i in sorted(dis):
         rule, detail = dis[i]
         _, rec = back[i - 1]
-        sig = value_signature(rule, rec["description"], detail) if obs[i - 1]["kind"] == "value" else case_signature(rule, rec["description"], detail)
+        sig = value_signature(rule, rec["description"], detail, desc) if obs[i - 1]["kind"] == "value" else case_signature(rule, rec["description"], detail, desc)
         if rule == data["rule"] and rec["description"] == data["description"]:
             out.violations.append(Violation(sig, "%s (%s)" % (rule, rec["description"]), data))
     return out
